@@ -179,6 +179,26 @@ func c16Run(c c16Case, seed string) (sig, msg string, nontrivial bool, inconclus
 			case "contract+spice":
 				amt, data = spice.New(0, 500), 9
 			}
+			if op.Kind == "spice-to-cache-key" {
+				// a pure spice transfer whose receiver "address" is a string that happens to be a key of the awaiting
+				// cache (the receiver address is whatever the client signs): after sealing it the notary drops cached
+				// balances under that string - no awaiting list may change
+				rcv := "address-" + to.Addr
+				if step%2 == 1 && len(txs) > 0 {
+					rcv = fmt.Sprintf("trx-%x", txs[op.Tx%len(txs)].Hash[:])
+				}
+				tx := ref.MakeTx(fmt.Sprintf("c16 %d", step), spice.New(0, 700+uint64(step)), nil, rcv, from, w.Epoch.Add(time.Duration(step+1)*time.Hour))
+				okK, pn := c16Parallel(1, func() (any, error) { return s.notary.Propose(ctx, protoTx(&tx)) })
+				if pn != nil {
+					return "panic:Propose", fmt.Sprintf("step %d: Propose panicked: %v", step, pn), nontrivial, ""
+				}
+				if okK > 0 {
+					m.tentative[tx.Hash] = true // sealed in a tentative tip on the issuer signature alone, like any spice transfer
+				}
+				labels["spice-to-cache-key"]++
+				time.Sleep(3 * time.Millisecond) // the notary drops the cached balances in a goroutine of its own
+				break
+			}
 			tx := ref.MakeTx(fmt.Sprintf("c16 %d", step), amt, sim.DataBytes(data, int64(step)), to.Addr, from, w.Epoch.Add(time.Duration(step+1)*time.Hour))
 			tx.IssuerSignature = mutateSig(op.Sig, tx.IssuerSignature, wal(op.From+1), ref.TxMessage(&tx))
 			txs = append(txs, tx)
@@ -525,7 +545,7 @@ func TestC16(t *testing.T) {
 			}
 			switch op.K {
 			case "propose":
-				op.Kind = rapid.SampledFrom([]string{"spice", "contract", "contract", "contract", "contract+spice", "empty"}).Draw(rt, "kind")
+				op.Kind = rapid.SampledFrom([]string{"spice", "contract", "contract", "contract", "contract", "contract+spice", "empty", "spice-to-cache-key"}).Draw(rt, "kind")
 				op.Sig = rapid.SampledFrom([]string{"valid", "valid", "valid", "valid", "wrongkey", "bitflip"}).Draw(rt, "sig")
 			case "confirm":
 				op.Variant = rapid.SampledFrom([]string{"receiver", "receiver", "receiver", "stranger", "issuer-only", "sig-of-other-tx", "bitflip"}).Draw(rt, "variant")
